@@ -95,11 +95,13 @@ theorem async_csi_index_eq_sync (A : ARead σ UInt8) (hA : A.Lawful) (ask : Nat 
       (Prog.run sz (Prog.csiReadIndexF true) src).2.data :=
   Prog.refines_lift _ _ Prog.csiReadIndex_refines A hA ask hask sz s src h ix hs
 
-/-- the `fixed = false` sync readers are the models C12 is proved about (`Noodles.Io.Binary`) -/
-theorem sync_index_unfixed_is_c12_model (d : Bytes) :
-    Prog.runPure (Prog.tabixReadIndexF false) d = Prog.runPure Prog.tabixReadIndex d ∧
-    Prog.runPure (Prog.csiReadIndexF false) d = Prog.runPure Prog.csiReadIndex d :=
-  ⟨Prog.tabixReadIndexF_false d, Prog.csiReadIndexF_false d⟩
+/-- the `fixed = true` sync readers — the code since /repo `fix:` 125ecd7 (names block cut short by
+the end of the input is `UnexpectedEof`) and 8288cb5 (`read_aux` drains the `l_aux` bytes) — are the
+models C12 is proved about (`Noodles.Io.Binary`) -/
+theorem sync_index_fixed_is_c12_model (d : Bytes) :
+    Prog.runPure (Prog.tabixReadIndexF true) d = Prog.runPure Prog.tabixReadIndex d ∧
+    Prog.runPure (Prog.csiReadIndexF true) d = Prog.runPure Prog.csiReadIndex d :=
+  ⟨Prog.tabixReadIndexF_true d, Prog.csiReadIndexF_true d⟩
 
 /-- a tabix index: `n_ref = 0`, format VCF, columns 1 / 2 / 0, meta `#`, skip 0, `l_nm = 3`, and then only
 the two bytes `a NUL` before the file ends -/
